@@ -116,3 +116,8 @@ def unrounded_unary(r, cls, a):
         return {'range': plain_call(r, '__fpy_range') and len(r.args) == 3 and is_none_const(r.args[0]) and r.args[1] == a
                 and is_none_const(r.args[2])}
     return {'helper': plain_call(r, UNROUNDED_HELPER[cls]) and len(r.args) == 1 and r.args[0] == a}
+
+
+def is_binary64_rne(c):
+    """IEEE 754 binary64, round to nearest even: the context of a call from Python without a context"""
+    return cls_name(c) == 'IEEEContext' and c.es == 11 and c.nbits == 64 and c.rm.name == 'RNE'
